@@ -161,6 +161,9 @@ type Plan struct {
 	TwinStart bool `json:"twin_start,omitempty"`
 	// UniField: the key field addressed by the locator "name" is called "ключ"
 	UniField bool `json:"uni_field,omitempty"`
+	// SlowCC: the fake ClientConn's RemoveSubConn takes 250 ms of simulated time
+	// (serial plans only; the clock moves on until the callback has returned)
+	SlowCC bool `json:"slow_cc,omitempty"`
 	// MassKeys: the plan carries the "thousands of keys on stand-ins" fragment
 	MassKeys bool `json:"mass_keys,omitempty"`
 	// ScaleMix: the plan carries the "pool starts with 17-40 channels" fragment
@@ -716,6 +719,35 @@ func Generate(r *rand.Rand, profile string, concurrent bool, av Avoid) *Plan {
 		}
 		frag = round(frag)
 		frag = append(frag, Op{K: OpPick, B: MPlain}, Op{K: OpConn, A: -1, B: ConnProgress}, Op{K: OpConn, A: -1, B: ConnProgress}, Op{K: OpPick, B: MPlain})
+		at := 1
+		ops := append([]Op{}, p.Ops[:at]...)
+		ops = append(ops, frag...)
+		p.Ops = append(ops, p.Ops[at:]...)
+	}
+	// Directed fragment (serial, round-robin BIND x refresh x slow ClientConn): a
+	// BIND call waits for a channel that is down and being refreshed; the
+	// replacement comes up, and tearing the old connection down takes 250 ms inside
+	// the takeover callback - the waiting call's poll timer fires meanwhile. When
+	// the callback has returned the channel is READY: the call is handed it.
+	if profile == "rr" && !concurrent && r.IntN(20) == 0 && len(p.Ops) > 4 {
+		p.Cfg.RR = true
+		p.SlowCC = true
+		p.Cfg.Min, p.Cfg.Max = 2, 2
+		p.Cfg.UMs, p.Cfg.UCalls = uint32(10*(1+r.IntN(4))), 1
+		if p.Cfg.WM != 0 && p.Cfg.WM < 8 {
+			p.Cfg.WM = 8
+		}
+		k := r.IntN(nKeys)
+		frag := []Op{{K: OpConn, A: 0, B: ConnProgress}, {K: OpConn, A: 0, B: ConnProgress}, {K: OpConn, A: 1, B: ConnProgress}, {K: OpConn, A: 1, B: ConnProgress},
+			{K: OpPick, B: MBind, Keys: []int{0}}, {K: OpDone, A: -1, B: OutOK, Keys: []int{k}},
+			{K: OpPick, B: MBound, Keys: []int{k}, D: 1, E: 1},
+			{K: OpAdvance, E: int(p.Cfg.UMs) + 2},
+			{K: OpDone, A: -1, B: OutClientDE}, // refresh of the key's channel starts
+			{K: OpConn, A: -2, B: ConnFail},    // its old connection drops: the channel is not READY
+			{K: OpPick, B: MBind, Keys: []int{0}, D: 1, E: 5000}, {K: OpPick, B: MBind, Keys: []int{0}, D: 1, E: 5000}, // one of them waits for it
+			{K: OpAdvance, E: 20 + r.IntN(100)},
+			{K: OpConn, A: -1, B: ConnProgress}, {K: OpConn, A: -1, B: ConnProgress}, // the replacement takes over, slowly
+			{K: OpAdvance, E: 10}}
 		at := 1
 		ops := append([]Op{}, p.Ops[:at]...)
 		ops = append(ops, frag...)
